@@ -7,7 +7,7 @@
    type and the width conversions of bnum_integer/convert.rs as written (after the fix 625ede4876). *)
 From Coq Require Import ZArith List Bool Lia.
 Import ListNotations.
-Require Import RV.Lib.DecCore RV.Lib.DecCoreFacts RV.Model.C25_Round RV.Model.C24_Dec RV.Proof.C25_Round RV.Proof.C24_Dec.
+Require Import RV.Lib.DecCore RV.Lib.DecCoreFacts RV.Model.C25_Round RV.Model.C24_Dec RV.Proof.C25_Round RV.Proof.C24_Dec RV.Proof.C24_ToPrim.
 Open Scope Z_scope.
 
 Definition IsFmt (f : fmt) : Prop := f = DEC \/ f = PDEC.
@@ -53,6 +53,15 @@ Qed.
 Theorem C24_try_from_int_exact : forall f src v, IsFmt f -> 1 <= ibits src -> InTy src v ->
   dec_try_from_int f src v = if in_f f (v * one f) then Ok (v * one f) else Err EOverflow.
 Proof. intros f src v Hf; apply try_from_int_exact, IsFmt_ok, Hf. Qed.
+
+(* to primitive integers (TryFrom<Decimal> for i8 … u128): a whole number converts exactly when it fits
+   the target type (Overflow otherwise); a value with a fractional part is rejected (InvalidDigit) *)
+Theorem C24_to_prim_exact : forall f dst v, IsFmt f -> InF f v ->
+  dec_to_prim f dst v =
+    if Z.rem v (one f) =? 0
+    then (if in_ity dst (Z.quot v (one f)) then Ok (Z.quot v (one f)) else Err EOverflow)
+    else Err EInvalidDigit.
+Proof. intros f dst v Hf. apply to_prim_exact, IsFmt_ok, Hf. Qed.
 
 (* the width conversion of convert.rs as written is exactly the range test of the target type *)
 Theorem C24_narrow_is_range_test : forall src d v,
@@ -101,3 +110,4 @@ Print Assumptions C24_div_exact.
 Print Assumptions C24_pdec_to_dec_trunc.
 Print Assumptions C24_try_from_int_exact.
 Print Assumptions C24_no_panic.
+Print Assumptions C24_to_prim_exact.
